@@ -68,6 +68,13 @@ def enumerate_cases(tier, scope):
         for tail in ([], [['step', 'b']], [['step', 'a'], ['return', 9]]):
             for beh in behaviours:
                 yield {'outline': [first] + tail, 'behaviour': beh}
+    # a spec class whose get_outline() brackets the declared outline with bookkeeping steps
+    for first in instrs:
+        if any(ins[0] == 'return' for ins in _flatten([first])):
+            continue
+        for tail in ([], [['step', 'b']]):
+            for beh in behaviours[:1] + behaviours[6:8]:
+                yield {'outline': [first] + tail, 'behaviour': dict(beh, bracket=True)}
     # the chain runs on a loop of its own and waits for processes it launches from its steps
     child = {'steps': [{'async': True, 'body': [['yield'], ['out', 'c', 1]], 'ret': ['value', 5]}]}
     own = [
@@ -176,6 +183,9 @@ def execute(case):
 
     outline, behaviour = case['outline'], case['behaviour']
     exp_calls, exp_result, last_tc = model.interpret(outline, behaviour)
+    if behaviour.get('bracket'):
+        # the spec class wraps the declared outline with a prologue and an epilogue step (no return instructions here)
+        exp_calls = [('step', 'pro')] + list(exp_calls) + [('step', 'epi')]
     calls, views, escapes = run_workchain(outline, behaviour, own_loop=bool(case.get('own_loop')))
     if case.get('own_loop') and views.get('decoy_scheduled'):
         v('left-its-loop', f"{views['decoy_scheduled']} callback(s) were scheduled on the thread's default loop instead of the loop the chain was given")
